@@ -85,7 +85,7 @@ package erpc
 //@   requires?[wellformed-message] @C07 @C08 sentinelsIntact() && istype(message, type(*socket.message)) && as(message, type(*socket.message)) != nil
 //@   ensures[closed-session-fails-fast] @C07 !(old(s.status) == statusOk || (old(s.status) == statusActiveClosing && old(as(message, type(*socket.message)).mtype) == TypeReply)) ==> result.1 == statConnClosed && ghost.socketWrites == old(ghost.socketWrites)
 //@   ensures[at-most-one-socket-write] @C07 ghost.socketWrites <= old(ghost.socketWrites) + 1
-//@   ensures[reply-still-written-while-closing] @C08 old(s.status) == statusActiveClosing && old(as(message, type(*socket.message)).mtype) == TypeReply ==> ghost.socketWrites == old(ghost.socketWrites) + 1 || !statOK(result.1)
+//@   ensures[reply-still-written-while-closing] @C08 old(s.status) == statusActiveClosing && old(as(message, type(*socket.message)).mtype) == TypeReply ==> (result.1 == statConnClosed ==> ghost.socketWrites == old(ghost.socketWrites) + 1)
 //@   ensures[ok-means-written] @C07 @C08 statOK(result.1) ==> ghost.socketWrites == old(ghost.socketWrites) + 1
 //@   ensures[write-lock-released] @C07 sameLocks()
 //@   modifies as(message, type(*socket.message)).size, ghost.socketWrites
